@@ -195,6 +195,8 @@ def run_case(case, provider=None):
                     kw["silent_mode"] = True
                 if case.get("verbose"):
                     kw["verbose"] = True
+                if case.get("file_path"):
+                    kw["file_path"] = case["file_path"]
                 runner = LineageRunner(case["sql"], dialect=case.get("dialect", "ansi"), **kw)
                 order = case.get("order") or ACCESSORS
                 for acc in order:
